@@ -60,7 +60,7 @@ struct Operand
 
 struct Stats
 {
-    uint64_t trials = 0, calls = 0, alias = 0, noncanon_in = 0, noncanon_out = 0, regalias = 0;
+    uint64_t trials = 0, calls = 0, alias = 0, noncanon_in = 0, noncanon_out = 0, regalias = 0, third_calls = 0;
     uint64_t stride_in[9] = {0}, stride_out[9] = {0}, idx_in[IK_N] = {0}, idx_out[IK_N] = {0};
     uint64_t shape_in[6] = {0}, shape_out[6] = {0};
 };
@@ -346,10 +346,36 @@ static void run_trial(Ctx &cx, const c17::Ov &ov, uint64_t tseed, vf::Report &re
     }
     if (st.trials == 1) rep.sample(std::string(ov.family), describe_trial(t, tseed));
 
-    uint64_t out[2][8];
+    uint64_t out[3][8];
     bool reported_value = false;
-    for (int pass = 0; pass < 2; pass++)
+    for (int pass = 0; pass < 3; pass++)
     {
+        if (pass == 2)
+        {
+            // third call: the SAME addresses / index lists, lane 0 unchanged, the other input values replaced - the result must
+            // follow what is in memory and in the arguments now, not what was there at the previous call
+            if (t.alias || reported_value) break;
+            bool changed = false;
+            for (int i = 1; i < 3; i++)
+            {
+                Operand &o = *ops[i];
+                if (is_mem(o.sh)) { for (int k = 1; k < L; k++) { o.ar->cells[o.lead + o.pos[k]] = cx.g.pick(r); changed = true; } for (int k = 0; k < L; k++) o.val[k] = o.ar->cells[o.lead + o.pos[k]]; }
+                else if (o.sh == c17::REG) { for (int k = 1; k < L; k++) o.val[k] = cx.g.pick(r); changed = true; }
+            }
+            if (!changed) break;
+            for (int k = 0; k < L; k++)
+            {
+                uint64_t av = t.a.val[k], bv = t.b.sh == c17::NONE ? 0 : t.b.val[k];
+                switch (t.opc)
+                {
+                case 'c': t.exp[k] = av; break;
+                case 'a': t.exp[k] = orc::add(av, bv); break;
+                case 's': t.exp[k] = orc::sub(av, bv); break;
+                default: t.exp[k] = orc::mul(av, bv); break;
+                }
+            }
+            st.third_calls++;
+        }
         if (pass == 1)
         {
             for (int i = 0; i < 3; i++)
@@ -370,7 +396,7 @@ static void run_trial(Ctx &cx, const c17::Ov &ov, uint64_t tseed, vf::Report &re
             for (int k = 0; k < L; k++) t.c.ar->cells[t.c.lead + t.c.pos[k]] = pre[k];
 
         c17::Call x;
-        uint64_t junk = sent[pass] * 0x9E3779B97F4A7C15ULL;
+        uint64_t junk = sent[pass ? 1 : 0] * 0x9E3779B97F4A7C15ULL;
         fill_call_operand(t.c, x.c, x.sc, x.ic, x.vc, x.rc, L, junk);
         fill_call_operand(t.a, x.a, x.sa, x.ia, x.va, x.ra, L, junk + 1);
         fill_call_operand(t.b, x.b, x.sb, x.ib, x.vb, x.rb, L, junk + 2);
@@ -398,7 +424,7 @@ static void run_trial(Ctx &cx, const c17::Ov &ov, uint64_t tseed, vf::Report &re
             if (!ok)
             {
                 reported_value = true;
-                rep.violation(keystem + "wrong-value",
+                rep.violation(keystem + (pass == 2 ? "wrong-value:third-call-same-addresses-changed-contents" : "wrong-value"),
                               vf::J().raw("case", describe_trial(t, tseed)).u("pass", pass).u("lane", k).h("got", got).h("expected", t.exp[k])
                                   .raw("result_lanes", vf::jarr_hex(out[pass], L)).done());
             }
@@ -452,6 +478,7 @@ static void flush_stats(const c17::Ov &ov, const Stats &st, vf::Report &rep)
     rep.cls("trials:op:" + std::string(ov.op), st.trials);
     rep.cls("mode:result_aliases_input", st.alias);
     rep.cls("mode:result_register_is_input_register", st.regalias);
+    rep.cls("mode:third_call_same_addresses_changed_contents", st.third_calls);
     rep.cls("values:trials_with_noncanonical_input", st.noncanon_in);
     rep.cls("values:noncanonical_result_lanes", st.noncanon_out);
     for (int i = 0; i < 9; i++)
